@@ -14,6 +14,7 @@ mod c04;
 mod c03;
 mod c20;
 mod c16;
+mod c06;
 
 fn main() {
     let mode = std::env::args().nth(1).unwrap_or_default();
@@ -64,6 +65,7 @@ fn dispatch(mode: &str, line: &str) -> String {
         "c14" => c03::run_spans(line),
         "c20" => c20::run(line),
         "c16" => c16::run(line),
+        "c06" => c06::run(line),
         _ => format!("bad-mode {mode}"),
     }
 }
